@@ -92,6 +92,8 @@ pub enum Mut {
     IndexPad { k: usize, val: u8 },
     /// coherent rewrite: the index lists only the first `keep` records (count = keep)
     IndexTruncate { keep: usize },
+    /// coherent rewrite: records i and j exchanged
+    IndexSwap { i: usize, j: usize },
     /// coherent rewrite: one extra record appended (count = n + 1)
     IndexExtra { unpadded: u64, unpacked: u64 },
     IndexCrc(u32),
@@ -349,6 +351,10 @@ pub fn write_xz(spec: &XzSpec, m: Option<&Mut>) -> XzFile {
         Some(Mut::IndexTruncate { keep }) if *keep < records.len() => {
             records.truncate(*keep);
             count = *keep as u64;
+            applied = true;
+        }
+        Some(Mut::IndexSwap { i, j }) if *i < records.len() && *j < records.len() && records[*i] != records[*j] => {
+            records.swap(*i, *j);
             applied = true;
         }
         Some(Mut::IndexExtra { unpadded, unpacked }) => {
